@@ -228,6 +228,30 @@ pub fn run(ctx: &Ctx) -> i32 {
     let valid: Vec<&'static str> = dets::ALL.iter().map(|(n, _)| *n).collect();
     let nsel = ctx.tier.pick(300u64, 6000u64);
     run_workload(ctx, &mut acc, "exact-selection", nsel, |k, rng, acc| {
+        if k == 1 {
+            // a configuration that selects nothing: three empty lists
+            let (out, cwd) = match run_with_toml(&trigger, &[], &[], &[], false) {
+                Ok(x) => x,
+                Err(e) => {
+                    acc.inconclusive(e);
+                    return;
+                }
+            };
+            acc.eval();
+            acc.cov("empty-selection(three empty lists)");
+            let text = String::from_utf8_lossy(&out.report.clone().unwrap_or_default()).to_string();
+            match sections_in(&text, &table) {
+                Ok(secs) if out.code == Some(0) => {
+                    if !secs.is_empty() {
+                        acc.violation(format!("selected!=analysed:empty-selection:{}", secs.iter().next().unwrap()), json!({"selection": [], "sections_found": secs}));
+                    }
+                }
+                Ok(_) => acc.violation("valid-selection-rejected:empty", json!({"exit_code": out.code, "stderr": trunc(&out.stderr, 300)})),
+                Err(e) => acc.violation("report-grammar", json!({"parse_error": e})),
+            }
+            let _ = std::fs::remove_dir_all(&cwd);
+            return;
+        }
         if k == 0 {
             // default configuration
             let cwd = scratch_dir("c14");
@@ -385,8 +409,12 @@ pub fn run(ctx: &Ctx) -> i32 {
         let toml_path = if toml_in_subdir && toml_path.starts_with("./") && rng.chance(1, 2) { format!("{}/tdir", cwd) } else { toml_path };
         std::fs::write(format!("{}/{}", cwd, toml_arg), toml_text(Some(&toml_path), &all_o, &all_v, &all_q)).unwrap();
         let mut args: Vec<&str> = vec![];
+        // spellings of the --path argument; when ./contracts exists the argument may also name exactly that directory
+        let path_spelling: &str = if combo & 4 != 0 && rng.chance(1, 3) { rng.ps(&["./contracts", "contracts", "./contracts/"]) } else { rng.ps(&["pdir", "./pdir", "pdir/"]) };
+        let path_is_contracts = path_spelling.contains("contracts");
         if combo & 1 != 0 {
-            args.extend(["--path", "pdir"]);
+            args.extend(["--path", path_spelling]);
+            acc.cov(&format!("precedence:path-spelling:{}", path_spelling));
         }
         if combo & 2 != 0 {
             args.extend(["--toml", toml_arg]);
@@ -404,7 +432,7 @@ pub fn run(ctx: &Ctx) -> i32 {
         acc.eval();
         acc.cov(&format!("precedence-combo:path={},toml={},contracts={}", combo & 1, (combo >> 1) & 1, (combo >> 2) & 1));
         let expected_file = if combo & 1 != 0 {
-            Some("P1.sol")
+            Some(if path_is_contracts { "D1.sol" } else { "P1.sol" })
         } else if combo & 2 != 0 {
             Some("T1.sol")
         } else if combo & 4 != 0 {
